@@ -19,7 +19,7 @@ JOBS = int(os.environ.get('VF_JOBS', '16'))
 EXIT_OK, EXIT_VIOLATION, EXIT_HARNESS = 0, 1, 3
 GRACE_S = 240
 # wall budget per tier (seconds): slices not started before it is used up are reported as skipped (the bound in evidence shrinks)
-DEFAULT_BUDGET = {'quick': None, 'thorough': 1500}
+DEFAULT_BUDGET = {'quick': None, 'thorough': 900}
 
 
 def load_known(prop):
